@@ -240,6 +240,10 @@ func SimReset() {
 	nextID = 0
 	simStats = SimStats{}
 	SimCallerRanges = SimCallerRanges[:0]
+	for i := range simCallerKeep {
+		simCallerKeep[i] = nil
+	}
+	simCallerKeep = simCallerKeep[:0]
 }
 
 // SimRegisterCaller marks b's whole capacity as caller-owned memory.
@@ -251,7 +255,12 @@ func SimRegisterCaller(b []byte) {
 	}
 	p := uintptr(unsafe.Pointer(&b[:1][0]))
 	SimCallerRanges = append(SimCallerRanges, [2]uintptr{p, p + uintptr(cap(b))})
+	// keep the memory alive until the next reset: otherwise the GC could hand the same
+	// addresses to a pool buffer and a legitimate Free would look like a free of caller memory
+	simCallerKeep = append(simCallerKeep, b)
 }
+
+var simCallerKeep [][]byte
 
 //go:norace
 func simInCaller(p uintptr, size int) bool {
